@@ -268,6 +268,11 @@ func builtinJSONStringifyWalk(ctx builtinJSONStringifyContext, key string, holde
 		integer := value.number()
 		switch integer.kind {
 		case numberInteger:
+			if integer.int64 > 1<<53 || integer.int64 < -(1<<53) {
+				// Not every such integer is a Number value: serialise the
+				// double (ToString(value), ECMA 262 15.12.3 Str step 9).
+				return value.float64(), true
+			}
 			return integer.int64, true
 		case numberFloat:
 			return integer.float64, true
